@@ -93,6 +93,11 @@ type c01Step struct {
 	Prefix    int      `json:"prefix_style,omitempty"`                       // assertions use: 0 the saml: prefix, 1 the default namespace, 2 the saml2: prefix
 	Ops       []c01Op  `json:"ops"`
 	Retrust   string   `json:"retrust,omitempty"` // before this delivery the SP's IdP metadata is replaced (key roll-over / retirement) by this trust configuration
+	// Spent: the IdP's assertions of this step are genuine and honestly signed but of no use any more: "expired" (issued two days
+	// ago, valid for a day), "other-request" (confirmations answer a request of yesterday), "other-audience" (issued to another SP).
+	// Nothing obliges the SP to accept them; what Mallory forges next to them is written to be current in every such respect, so
+	// that the signature is all that stands between her assertion and acceptance
+	Spent string `json:"genuine_assertions_spent,omitempty"`
 }
 
 // c01RootKeys: keys that are a trusted signing root in some configuration of a run
@@ -246,6 +251,22 @@ func genTamper(g *Rng, tier string) *Plan {
 				spec.Assertions[ai].Pretty = true
 			}
 		}
+		if g.Bool(0.12) {
+			st.Spent = Pick(g, "expired", "other-request", "other-audience")
+			for ai := range spec.Assertions {
+				a := &spec.Assertions[ai]
+				switch st.Spent {
+				case "expired":
+					a.IssueMs = -2 * 86_400_000
+					a.NotBefore, a.NotOnOrAfter = i64(-2*86_400_000), i64(-86_400_000)
+					a.Confs[0].NotOnOrAfter = i64(-86_400_000)
+				case "other-request":
+					a.Confs[0].InResponseTo = "id-req-yesterday"
+				default:
+					a.Audiences = []string{"https://other-sp.example.org/saml/metadata"}
+				}
+			}
+		}
 		st.Spec = spec
 		if st.Entry == "artifact" && g.Bool(0.5) {
 			st.ArtSign, st.ArtKey = true, signKey
@@ -261,6 +282,9 @@ func genTamper(g *Rng, tier string) *Plan {
 		st.Ops = []c01Op{}
 		for q := 0; q < nops; q++ {
 			st.Ops = append(st.Ops, c01GenOp(g, &st, k))
+		}
+		if st.Spent != "" && g.Bool(0.6) {
+			st.Ops = append(st.Ops, c01Op{Op: "forge-sibling", Target: "A0", Pos: Pick(g, "after", "last", "before"), IDMode: Pick(g, "same", "same", "fresh"), Key: Pick(g, 0, 0, 2)})
 		}
 		if st.EncID && g.Bool(0.6) {
 			// an SP that reads EncryptedIDs must read the signed one
@@ -871,6 +895,11 @@ func (m *c01Msg) forge(base int, idMode string) *etree.Element {
 	spec.Attrs = []AttrSpec{{Name: "uid", Values: []string{marker("eviluid", n)}}, {Name: "groups", Friendly: "g", Values: []string{"admin"}}}
 	spec.SessionIndex = "si-evil"
 	spec.Sign, spec.Encrypt = false, false
+	if m.st.Spent != "" {
+		spec.IssueMs, spec.NotBefore, spec.NotOnOrAfter = 0, i64(-1000), i64(3_600_000)
+		spec.Audiences = []string{spBase + "/saml/metadata"}
+		spec.Confs = []ConfSpec{{NotOnOrAfter: i64(3_600_000), Recipient: spBase + "/saml/acs", InResponseTo: c01ReqID}}
+	}
 	switch idMode {
 	case "same":
 	case "edited":
@@ -1976,6 +2005,12 @@ func execTamper(t *testing.T, p *Plan) *Result {
 			expect = "MUST_ACCEPT"
 		case len(covLabels) == 0:
 			expect = "MUST_REJECT"
+		}
+		if st.Spent != "" {
+			res.probe("genuine-assertions-spent:" + st.Spent)
+			if expect == "MUST_ACCEPT" {
+				expect = "MAY_REJECT" // honestly signed, and no longer (or never) of use to this SP for this request
+			}
 		}
 		if expect == "MUST_ACCEPT" && st.InheritNS && st.Prefix%3 == 1 && c01AnyPlain(&st) {
 			// The statement is an "only if"; acceptance of untampered genuine responses is required here only to keep
